@@ -693,6 +693,90 @@ fn respell_negation_cases(seed: u64, count: usize) -> Vec<Case> {
     out
 }
 
+/// and/or used as a VALUE inside arithmetic with the identity constant (1 for and, 0 for or) spelled as a literal in
+/// one twin and as a closed constant EXPRESSION in the other (`(2 - 1)`, `(1 * 1)`, `(3 / 3)`, `not 0`, `abs{-1}`;
+/// `(1 - 1)`, `0 * 5`, `not 1` for or).  With a non-Boolean operand (integer / real variable, arithmetic term) the node
+/// collapses to that operand and BOTH twins must be rejected with NonBinaryLogicOperand by the up-front
+/// `check_collapsing_logic_operands`; with a Boolean operand both compile to the same linear model.  This is the
+/// implementation-side check of the hypothesis "same check outcome" of `Rooc.Props.C10.compile_twins` for constant
+/// respellings (`compile_respell_constant` proves it for the model).  Own forked stream, fixed count.
+fn respell_identity_cases(seed: u64, count: usize) -> Vec<Case> {
+    use rooc::{Comparison, OptimizationType, VariableType};
+    let mut rr = Rng::new(seed ^ 0x0C10_1200_1DE7);
+    let r = &mut rr;
+    let num = |v: f64| Exp::Number(v);
+    let var = |n: &str| Exp::Variable(n.into());
+    let bx = |op: BinOp, l: Exp, x: Exp| Exp::BinOp(op, Box::new(l), Box::new(x));
+    let ds = vec![
+        gen_model::VarDecl { name: "x".into(), ty: VariableType::IntegerRange(-3, 5) },
+        gen_model::VarDecl { name: "z".into(), ty: VariableType::Real(0.0, 4.0) },
+        gen_model::VarDecl { name: "a".into(), ty: VariableType::Boolean },
+        gen_model::VarDecl { name: "y".into(), ty: VariableType::Real(0.0, 9.0) },
+    ];
+    let mut out = vec![];
+    for i in 0..count {
+        let is_and = i % 2 == 0;
+        let id = if is_and { 1.0 } else { 0.0 };
+        let spelled: Exp = if is_and { match (i / 2) % 5 {
+            0 => bx(BinOp::Sub, num(2.0), num(1.0)),
+            1 => bx(BinOp::Mul, num(1.0), num(1.0)),
+            2 => bx(BinOp::Div, num(3.0), num(3.0)),
+            3 => Exp::Not(Box::new(num(0.0))),
+            _ => Exp::Abs(Box::new(num(-1.0))),
+        } } else { match (i / 2) % 4 {
+            0 => bx(BinOp::Sub, num(1.0), num(1.0)),
+            1 => bx(BinOp::Mul, num(0.0), num(5.0)),
+            2 => Exp::Not(Box::new(num(1.0))),
+            _ => bx(BinOp::Add, num(-2.0), num(2.0)),
+        } };
+        let (operand, boolean): (Exp, bool) = match (i / 10) % 4 {
+            0 => (var("x"), false),
+            1 => (var("z"), false),
+            2 => (bx(BinOp::Add, var("x"), num(1.0)), false),
+            _ => (var("a"), true),
+        };
+        let shape = r.below(3);
+        let node = |c: Exp| -> Exp { match (is_and, shape) {
+            (true, 0) => Exp::And(vec![operand.clone(), c]),
+            (true, 1) => Exp::And(vec![c, operand.clone()]),
+            (true, _) => bx(BinOp::And, operand.clone(), c),
+            (false, 0) => Exp::Or(vec![operand.clone(), c]),
+            (false, 1) => Exp::Or(vec![c, operand.clone()]),
+            (false, _) => bx(BinOp::Or, operand.clone(), c),
+        } };
+        let place = r.below(3);
+        let mk = |c: Exp| -> Model {
+            let v = node(c);
+            let base = Constraint::new(bx(BinOp::Add, var("y"), var("z")), Comparison::LessOrEqual, num(8.0), String::new());
+            let (obj, cons) = match place {
+                0 => (var("y"), vec![Constraint::new(bx(BinOp::Add, v, var("y")), Comparison::GreaterOrEqual, num(3.0), String::new()), base]),
+                1 => (bx(BinOp::Add, v, var("y")), vec![base]),
+                _ => (var("y"), vec![Constraint::new(bx(BinOp::Mul, num(2.0), v), Comparison::LessOrEqual, var("y"), String::new()), base]),
+            };
+            gen_model::build(OptimizationType::Max, obj, cons, &ds)
+        };
+        let (m1, m2) = (mk(num(id)), mk(spelled));
+        let (a, b) = (Linearizer::linearize(m1.clone()), Linearizer::linearize(m2.clone()));
+        let err = |e: &rooc::LinearizationError| crate::props::c01::lin_error(e);
+        let show = |z: &Result<rooc::LinearModel, rooc::LinearizationError>| z.as_ref().err().map(|e| err(e)).unwrap_or("(ok)".into());
+        let mut c = Case::default();
+        c.show = format!("{}  ~~identity constant respelled~~>  {}", format!("{}", m1).replace('\n', " ; "), format!("{}", m2).replace('\n', " ; "));
+        c.tags = vec!["respell".into(), "respell-identity-constant".into(), if boolean { "identity-boolean-operand".into() } else { "identity-nonbinary-operand".into() }];
+        c.nontrivial = true;
+        c.imp = format!("({} {})", show(&a), show(&b));
+        let same = match (&a, &b) { (Ok(x), Ok(y)) => sx::lin_model(x) == sx::lin_model(y), (Err(x), Err(y)) => err(x) == err(y), _ => false };
+        if !same {
+            c.sig = Some(if a.is_ok() != b.is_ok() { "respelling-changes-acceptance" } else { "respelling-changes-output" }.into());
+            c.impl_violation = Some(format!("an and/or value whose identity constant is a literal vs a constant expression: {} vs {}", show(&a), show(&b)));
+        } else if !boolean && a.is_ok() {
+            c.sig = Some("collapse-nonbinary-accepted".into());
+            c.impl_violation = Some("an and/or value collapses to a non-binary operand and BOTH spellings compile (expected NonBinaryLogicOperand)".into());
+        } else if a.is_ok() { c.tags.push("respell-identical-output".into()); } else { c.tags.push("respell-both-rejected".into()); }
+        out.push(c);
+    }
+    out
+}
+
 pub fn generate(seed: u64, n: usize, thorough: bool, _corpus: Option<&str>) -> Vec<Case> {
     let mut r = Rng::new(seed);
     let mut cases = vec![];
@@ -785,5 +869,6 @@ pub fn generate(seed: u64, n: usize, thorough: bool, _corpus: Option<&str>) -> V
     cases.extend(respell_division_cases(seed, if thorough { 600 } else { 60 }));
     cases.extend(nested_undefined_cases(seed, if thorough { 576 } else { 144 }));
     cases.extend(respell_negation_cases(seed, if thorough { 480 } else { 60 }));
+    cases.extend(respell_identity_cases(seed, if thorough { 800 } else { 120 }));
     cases
 }
